@@ -554,9 +554,72 @@ class SI:
 
 
 # ---------------------------------------------------------------- numpy proxy
-def _zeros(shape):
-    a = np.empty(shape, dtype=object); a.fill(0.0)
+class ComplexView:
+    """what `complex_buffer.view(dtype="double")` denotes in a symbolic session (consumed by the bridge)"""
+    def __init__(s, base):
+        s.base = base
+
+    @property
+    def shape(s):
+        return s.base.shape + (2,)
+
+
+class SymArr(np.ndarray):
+    """object ndarray that remembers the logical dtype ('f' double / 'c' complex128) it stands for, so that
+    phonopy's own dtype/flags tests take the branch they take on real arrays."""
+    ckind = 'f'
+
+    def __array_finalize__(s, obj):
+        s.ckind = getattr(obj, 'ckind', 'f')
+
+    @property
+    def dtype(s):
+        return np.dtype('complex128') if s.ckind == 'c' else np.dtype('double')
+
+    def view(s, *a, **kw):
+        dt = kw.get('dtype', a[0] if a else None)
+        if dt is not None and not isinstance(dt, type(np.ndarray)) or (isinstance(dt, type) and not issubclass(dt, np.ndarray)):
+            try:
+                k = np.dtype(dt).kind
+            except TypeError:
+                k = None
+            if k == 'f' and s.ckind == 'c':
+                return ComplexView(s)
+            if k == 'f' and s.ckind == 'f':
+                return s
+        return np.ndarray.view(s, *a, **kw)
+
+    def astype(s, dtype, *a, **kw):
+        k = np.dtype(dtype).kind
+        if k in 'fc':
+            r = np.ndarray.copy(s); r.ckind = k if k == 'c' else s.ckind if s.ckind == 'c' and k == 'c' else k
+            return r
+        return np.ndarray.astype(s, dtype, *a, **kw)
+
+    def round(s, decimals=0, out=None):
+        raise SymUnsupported('round() of a symbolic array')
+
+
+def _zeros(shape, kind='f'):
+    a = np.ndarray.__new__(SymArr, shape, dtype=object)    # owns its data, like np.zeros
+    a.fill(0.0); a.ckind = kind
     return a
+
+
+def owned_copy(a, kind=None):
+    """C-ordered copy that owns its buffer (what np.array(x, dtype='double', order='C') gives for real arrays)"""
+    a = np.asarray(a, dtype=object)
+    r = np.ndarray.__new__(SymArr, a.shape, dtype=object)
+    r[...] = a
+    r.ckind = kind or getattr(a, 'ckind', 'f')
+    return r
+
+
+def as_symarr(a, kind=None):
+    r = np.asarray(a, dtype=object).view(SymArr)
+    if kind is not None:
+        r.ckind = kind
+    return r
 
 
 def tdt(a):
@@ -590,7 +653,8 @@ def symarray(vals, shape=None):
     a = np.empty(len(vals), dtype=object)
     for i, v in enumerate(vals):
         a[i] = v
-    return a.reshape(shape) if shape is not None else a
+    a = a.reshape(shape) if shape is not None else a
+    return owned_copy(a, 'c' if any(isinstance(v, (SC, complex)) for v in vals) else 'f')
 
 
 def wrap_reals(terms, shape=None):
@@ -663,7 +727,7 @@ class LinalgProxy:
 
 def _obj(r):
     if isinstance(r, np.ndarray) and r.dtype.kind in 'fc':
-        return r.astype(object)
+        return as_symarr(r.astype(object), r.dtype.kind)
     if isinstance(r, tuple):
         return tuple(_obj(x) for x in r)
     return r
@@ -683,7 +747,7 @@ class NPProxy:
     def zeros(s, shape, dtype=float, order='C'):
         s._hit('zeros')
         if np.dtype(dtype).kind in 'fc':
-            return _zeros(shape)
+            return _zeros(shape, np.dtype(dtype).kind)
         return np.zeros(shape, dtype=dtype, order=order)
 
     def empty(s, shape, dtype=float, order='C'):
@@ -698,7 +762,7 @@ class NPProxy:
     def zeros_like(s, a, dtype=None, **kw):
         s._hit('zeros_like')
         if is_symarr(a) or (isinstance(a, np.ndarray) and a.dtype.kind in 'fc' and dtype is None):
-            return _zeros(np.shape(a))
+            return _zeros(np.shape(a), getattr(a, 'ckind', None) or a.dtype.kind)
         return np.zeros_like(a, dtype=dtype, **kw)
 
     def eye(s, n, dtype=float, **kw):
@@ -717,9 +781,13 @@ class NPProxy:
         if tdt(a) == object:
             if dtype is not None and np.dtype(dtype).kind in 'iu':
                 return np.array([int(v) for v in a.ravel()], dtype=dtype).reshape(a.shape)
-            return a.copy()
+            kind = np.dtype(dtype).kind if dtype is not None and np.dtype(dtype).kind in 'fc' else getattr(a, 'ckind', None)
+            if kind is None:
+                kind = 'c' if any(isinstance(v, (complex, np.complexfloating, SC)) for v in a.ravel()) else 'f'
+            return owned_copy(a, kind)
         if (dtype is not None and np.dtype(dtype).kind in 'fc') or (dtype is None and a.dtype.kind in 'fc'):
-            return np.array(x, dtype=dtype).astype(object)     # float buffers are object arrays in a symbolic session
+            r = np.array(x, dtype=dtype)     # float buffers are object arrays in a symbolic session
+            return owned_copy(r.astype(object), r.dtype.kind)
         return np.array(x, dtype=dtype, order=order, **kw)
 
     def asarray(s, x, dtype=None, order=None):
